@@ -51,6 +51,63 @@ func exprStr(n ast.Node) string {
 	return strings.Join(strings.Fields(b.String()), " ")
 }
 
+// allFuncs lists (sorted) every function / method with a body as (receiver type or "", name).
+func allFuncs(files pkgFiles) [][2]string {
+	var out [][2]string
+	for _, f := range files {
+		for _, d := range f.Decls {
+			fd, ok := d.(*ast.FuncDecl)
+			if !ok || fd.Body == nil {
+				continue
+			}
+			r := ""
+			if fd.Recv != nil && len(fd.Recv.List) == 1 {
+				t := fd.Recv.List[0].Type
+				if s, ok := t.(*ast.StarExpr); ok {
+					t = s.X
+				}
+				if id, ok := t.(*ast.Ident); ok {
+					r = id.Name
+				} else {
+					continue
+				}
+			}
+			out = append(out, [2]string{r, fd.Name.Name})
+		}
+	}
+	sort.Slice(out, func(i, j int) bool { return out[i][0]+"."+out[i][1] < out[j][0]+"."+out[j][1] })
+	return out
+}
+
+// methodNames lists (sorted) the methods of receiver type recv whose name starts with one of the prefixes.
+func methodNames(files pkgFiles, recv string, prefixes ...string) []string {
+	var out []string
+	for _, f := range files {
+		for _, d := range f.Decls {
+			fd, ok := d.(*ast.FuncDecl)
+			if !ok || fd.Body == nil || fd.Recv == nil || len(fd.Recv.List) != 1 {
+				continue
+			}
+			t := fd.Recv.List[0].Type
+			if s, ok := t.(*ast.StarExpr); ok {
+				t = s.X
+			}
+			id, ok := t.(*ast.Ident)
+			if !ok || id.Name != recv {
+				continue
+			}
+			for _, p := range prefixes {
+				if strings.HasPrefix(fd.Name.Name, p) {
+					out = append(out, fd.Name.Name)
+					break
+				}
+			}
+		}
+	}
+	sort.Strings(out)
+	return out
+}
+
 // findFunc finds a function or method: recv "" for plain functions, else the receiver type name without '*'.
 func findFunc(files pkgFiles, recv, name string) *ast.FuncDecl {
 	for _, f := range files {
@@ -1010,6 +1067,41 @@ func main() {
 	o.strs("durationBucketsAsValuesStmts", funcStmts(findFunc(tally, "DurationBuckets", "AsValues")), "DurationBuckets.AsValues")
 	o.strs("valueBucketsAsValuesStmts", funcStmts(findFunc(tally, "ValueBuckets", "AsValues")), "ValueBuckets.AsValues")
 	o.strs("histogramCachedReportStmts", funcStmts(findFunc(tally, "histogram", "cachedReport")), "(*histogram).cachedReport, flattened")
+
+	// vendored thrift writers, generated M3 types and the counting transport (C16): complete bodies. Model/Thrift.lean
+	// was written by hand against exactly these bodies; TallyProofs/Tie/C16.lean freezes them, so that any edit of an
+	// encoder shows up as a broken tie (and the differential then looks for a concrete batch).
+	thr := parseDir(filepath.Join(root, "thirdparty", "github.com", "apache", "thrift", "lib", "go", "thrift"))
+	for _, n := range []string{"WriteMessageBegin", "WriteMessageEnd", "WriteStructBegin", "WriteStructEnd", "WriteFieldBegin", "writeFieldBeginInternal",
+		"WriteFieldEnd", "WriteFieldStop", "WriteListBegin", "WriteListEnd", "WriteBool", "WriteByte", "WriteI16", "WriteI32", "WriteI64", "WriteDouble",
+		"WriteString", "WriteBinary", "writeCollectionBegin", "writeVarint32", "writeVarint64", "int64ToZigzag", "int32ToZigzag", "writeByteDirect",
+		"writeIntAsByteDirect", "getCompactType", "Flush"} {
+		o.strs("thriftCompact_"+n, bodyShape(findFunc(thr, "TCompactProtocol", n)), "thrift TCompactProtocol."+n+" (signature, statements)")
+	}
+	for _, n := range []string{"WriteMessageBegin", "WriteMessageEnd", "WriteStructBegin", "WriteStructEnd", "WriteFieldBegin", "WriteFieldEnd", "WriteFieldStop",
+		"WriteListBegin", "WriteListEnd", "WriteBool", "WriteByte", "WriteI16", "WriteI32", "WriteI64", "WriteDouble", "WriteString", "WriteBinary", "Flush"} {
+		o.strs("thriftBinary_"+n, bodyShape(findFunc(thr, "TBinaryProtocol", n)), "thrift TBinaryProtocol."+n+" (signature, statements)")
+	}
+	for _, recv := range []string{"MetricValue", "MetricTag", "Metric", "MetricBatch", "M3EmitMetricBatchV2Args"} {
+		for _, n := range methodNames(m3v2, recv, "Write", "writeField") {
+			o.strs("m3v2_"+recv+"_"+n, bodyShape(findFunc(m3v2, recv, n)), "m3/thrift/v2 ("+recv+")."+n+" (signature, statements)")
+		}
+	}
+	calc := parseDir(filepath.Join(root, "m3", "customtransports"))
+	for _, n := range methodNames(calc, "TCalcTransport", "") {
+		o.strs("calcTransport_"+n, bodyShape(findFunc(calc, "TCalcTransport", n)), "m3/customtransports TCalcTransport."+n+" (signature, statements)")
+	}
+
+	// complete bodies of every function of the files the hand-written models mirror (frozen per property in
+	// TallyProofs/Tie/CxxFrozen.lean, see tools/frozen_map.py)
+	for _, pk := range []struct {
+		tag   string
+		files pkgFiles
+	}{{"tally", tally}, {"instrument", instr}, {"m3", m3}, {"thriftudp", udp}, {"prometheus", prom}, {"cache", cache}, {"identity", ident}} {
+		for _, fn := range allFuncs(pk.files) {
+			o.strs("body_"+pk.tag+"_"+fn[0]+"_"+fn[1], bodyShape(findFunc(pk.files, fn[0], fn[1])), pk.tag+": ("+fn[0]+")."+fn[1]+" (signature, statements)")
+		}
+	}
 
 	// instrument
 	o.strs("instrumentExecOps", syncOps(findFunc(instr, "call", "Exec"), map[string]bool{"Start": true, "Stop": true, "f": true}), "instrument (*call).Exec")
